@@ -8,7 +8,8 @@ EXPLANATION = ("round trips compared through public getters; the TXT text writte
                "well-formedness invariants of C13/C12/C11, every proper prefix must give None")
 NAMES = [["A", "B", "C", "D", "E"], ["v0", "v1", "v2", "v3", "v4"], ["Alice", "Bob", "Charlie", "Dave", "Elise"], ["Gina", "Ian", "N", "R2", "Fred"], ["an", "Ian", "2", "R2", "ed"],
          ["EDGE", "VERTICES", "GRAPH", "DEGREE", "FIRING"], ["a b", "x.y", "p-q", "q_r", "z#1"], ["é", "ß", "日本", "ñandú", "Ω"], ["10", "9", "08", "7", "-6"], ["ORIENTED", "O", "D", "V", "G"],
-         ["'q'", "\"d\"", "{", "[x]", "\\"], ["a b", "c d", "e\x0bf", "g h", "i\x1cj"]]
+         ["'q'", "\"d\"", "{", "[x]", "\\"], ["a b", "c d", "e\x0bf", "g h", "i\x1cj"],
+         ["", " ", "x", "\t", "  "]]      # empty / blank names: dictionaries and JSON hold them, the TXT format does not (its round trip is then not asked)
 TXT_ALPHA = [b"\n", b" ", b",", b":", b"-", b"0", b"7", b"A", b"_", b"\r", b"\xff", b"\t"]
 JSON_ALPHA = [b'"', b",", b":", b"{", b"]", b"0", b"7", b"-", b"e", b".", b" ", b"\xff"]
 KINDS = ["graph", "divisor", "firingscript", "orientation"]
